@@ -30,6 +30,7 @@ RULE = (
     ' Round 9: `debug_log`; sent Message objects are not kept alive by the harness.'
     ' Round 13: the gateway reports its unchanged version again among the `pre_lines`; `node_type` of the sleeping nodes (repeater, unlisted).'
     ' Round 12: `wake_counters` (the counter carried by successive wake lines shrinks, repeats or restarts).'
+    ' Round 14: `node_flags` (reboot requested, battery 0/100, high stored counter on the sleeping nodes).'
     ' Round 11: a sender may send an internal command (heartbeat request) instead of a set; `listen_line` (the line that arrives during the race is the node asking for a parked key, not its wake).'
     " Round 10: `pre_lines` (pre/post-sleep notifications, other nodes' heartbeats); rule buffered-send-written-directly; a bystander gateway whose node of the same id wakes."
 )
